@@ -38,6 +38,9 @@ EXTENDS Naturals, Sequences, FiniteSets, TLC
 CONSTANTS NRot,     \* rotations
           K, M,     \* Cleanup::KeepLogAndCompressedFiles(K, M)  (M = 0: KeepLogFiles(K); K = 0: KeepCompressedFiles(M))
           Variant,  \* "as_coded" | "die_overrides" | "no_join" | "coalesce_acts"
+          Direct,   \* a direct naming (NumbersDirect): the file being written is itself the newest file of the family and
+                    \* part of every listing; a rotation only opens the next index; with K = 0 the cleanup keeps 1 plain
+                    \* file nevertheless (list_and_cleanup.rs:109)
           GenHist
 
 VARIABLES plain,   \* indexes of the rotated files that exist uncompressed
@@ -52,11 +55,14 @@ VARIABLES plain,   \* indexes of the rotated files that exist uncompressed
 vars == <<plain, gz, nrot, chan, cst, snap, zs, app, hist>>
 H(e) == IF GenHist THEN Append(hist, e) ELSE hist
 
-Init == /\ plain = {} /\ gz = {} /\ nrot = 0 /\ chan = <<>> /\ cst = "wait" /\ snap = <<>> /\ zs = 0 /\ app = "run"
+\* the files of the family are 0 .. Top-1 (with a direct naming the last one is the current file)
+Top == IF Direct THEN nrot + 1 ELSE nrot
+KK == IF Direct /\ K = 0 THEN 1 ELSE K
+Init == /\ plain = (IF Direct THEN {0} ELSE {}) /\ gz = {} /\ nrot = 0 /\ chan = <<>> /\ cst = "wait" /\ snap = <<>> /\ zs = 0 /\ app = "run"
         /\ hist = <<>>
 
 Rotate == /\ app = "run" /\ nrot < NRot
-          /\ plain' = plain \cup {nrot} /\ nrot' = nrot + 1 /\ chan' = Append(chan, "Act")
+          /\ plain' = plain \cup {Top} /\ nrot' = nrot + 1 /\ chan' = Append(chan, "Act")
           /\ hist' = H([op |-> "Rotate"])
           /\ UNCHANGED <<gz, cst, snap, zs, app>>
 
@@ -82,7 +88,7 @@ CRecv == /\ cst = "wait" /\ chan # <<>>
 
 CList == /\ cst = "got"
          /\ LET L == Listing(Existing, 0)
-                todo == SelectSeq(L, LAMBDA f : f.pos >= K + M \/ (f.pos >= K /\ ~f.z))
+                todo == SelectSeq(L, LAMBDA f : f.pos >= KK + M \/ (f.pos >= KK /\ ~f.z))
             IN /\ snap' = todo
                /\ cst' = IF todo = <<>> THEN "wait" ELSE "run"
          /\ zs' = 0
@@ -93,7 +99,7 @@ Advance == /\ snap' = Tail(snap) /\ zs' = 0 /\ cst' = IF Len(snap) = 1 THEN "wai
 
 CStep == /\ cst = "run" /\ snap # <<>>
          /\ LET f == Head(snap) IN
-            IF f.pos >= K + M
+            IF f.pos >= KK + M
             THEN \* fs:remove
                  /\ plain' = plain \ {f.i} /\ gz' = gz \ {f.i} /\ Advance
             ELSE \* compression: fs:gz_create, fs:gz_copy, fs:gz_finish, fs:remove_orig
@@ -117,17 +123,19 @@ Next == Rotate \/ CRecv \/ CList \/ CStep \/ Shutdown \/ Join
 Spec == Init /\ [][Next]_vars /\ WF_vars(CRecv) /\ WF_vars(CList) /\ WF_vars(CStep) /\ WF_vars(Join)
 
 (***************************************************************************)
-Newest(n) == {i \in 0..(nrot - 1) : i + n >= nrot}          \* the n most recent rotated files
+Newest(n) == {i \in 0..(Top - 1) : i + n >= Top}          \* the n most recent files of the family
 \* C07 at the latest when shutdown() returns: exactly the most recent files, the newest K plain, the next M compressed
 C07_LimitsAtShutdown == app = "down" =>
-    /\ Cardinality(plain) <= K /\ Cardinality(gz \ plain) <= M
-    /\ plain = Newest(K)
-    /\ gz = Newest(K + M) \ Newest(K)
+    /\ Cardinality(plain) <= KK /\ Cardinality(gz \ plain) <= M
+    /\ plain = Newest(KK)
+    /\ gz = Newest(KK + M) \ Newest(KK)
 \* at every moment: nothing inside the limits is removed, nothing among the newest K is compressed
-C07_NotRemovedEarly == Newest(K + M) \subseteq Existing
-C07_NotCompressedEarly == Newest(K) \cap gz = {}
+C07_NotRemovedEarly == Newest(KK + M) \subseteq Existing
+C07_NotCompressedEarly == Newest(KK) \cap gz = {}
+\* the file currently written to is never compressed or removed
+C07_CurrentSafe == Direct => (Top - 1 \in plain /\ Top - 1 \notin gz)
 \* a compressed file replaces its original only when it is finished
-C07_OriginalUntilFinished == (cst = "run" /\ snap # <<>> /\ Head(snap).pos < K + M) => Head(snap).i \in plain
+C07_OriginalUntilFinished == (cst = "run" /\ snap # <<>> /\ Head(snap).pos < KK + M) => Head(snap).i \in plain
 \* every started shutdown returns
 C07_ShutdownReturns == (app = "shutting") ~> (app = "down")
 =============================================================================
